@@ -87,3 +87,23 @@ Theorem C09_udp_error_internal_constant_legacy_refuted :
                     write_error_legacy txid e <> write_error_legacy txid e'.
 Proof. exact udp_error_internal_constant_legacy_refuted. Qed.
 Print Assumptions C09_udp_error_internal_constant_legacy_refuted.
+
+(* ---- end to end (Model/Tracker.v: dispatcher -> parser -> logic with the built-in hooks -> store -> writer):
+   in EVERY state reached by a history of sane operations, the one datagram answering an accepted announce
+   decodes to the request's own transaction id (bytes 12..15 of the request), the action code the request
+   used (1, or 4 for the opentracker action - whatever the requester's family), the configured interval in
+   whole seconds, the counts and the peers the logic computed, in entries of the requester's family *)
+From Chihaya Require Import Model.Tracker Proofs.TrackerP Proofs.FamilyP.
+Theorem C09_udp_announce_end_to_end : forall mac t u ops clock ip packet txid v6a r q,
+  Forall sop_sane ops -> wf_bytes packet = true -> wf_bytes ip = true -> (length ip = 4 \/ length ip = 16)%nat ->
+  UdpParse.handle_udp mac (uc_key u) (uc_skew u) clock (uc_opts u) ip packet = UdpParse.UAnnounce txid v6a r q ->
+  exists sp' d c i ps,
+    udp_step spec_if mac t u (run_spec ops) clock ip packet = Some (sp', [d]) /\
+    respond spec_if (ann_of_areq r) (run_spec ops) = Some (c, i, ps) /\
+    sp' = swarm_interaction spec_if (ann_of_areq r) clock (run_spec ops) /\
+    bep15_decode_announce (v6_of (r_af r)) d =
+      Some {| da_action := if v6a then 4 else 1; da_txid := sub 12 16 packet;
+              da_interval := interval_field (t_interval t);
+              da_leechers := i; da_seeders := c; da_peers := map endpoint ps |}.
+Proof. exact udp_announce_end_to_end. Qed.
+Print Assumptions C09_udp_announce_end_to_end.
